@@ -30,53 +30,58 @@ func jobsFor(cfg *config) []*Job {
 	switch cfg.prop {
 	case "C18":
 		if thorough {
-			add("c18-race-t128", "t128", true, "c18", "", 24000, 600, 1)
-			add("c18-race-t2", "t2", true, "c18", "", 8000, 300, 2)
-			add("c18-race-t16", "t16", true, "c18", "", 8000, 300, 3)
-			add("c18-value-t128", "t128", false, "c18", "", 40000, 300, 4)
+			add("c18-race-t128", "t128", true, "c18", "", 60000, 900, 1)
+			add("c18-race-t2", "t2", true, "c18", "", 20000, 400, 2)
+			add("c18-race-t16", "t16", true, "c18", "", 20000, 400, 3)
+			add("c18-value-t128", "t128", false, "c18", "", 120000, 400, 4)
 		} else {
-			add("c18-race-t128", "t128", true, "c18", "", 1400, 90, 1)
-			add("c18-race-t2", "t2", true, "c18", "", 500, 60, 2)
-			add("c18-value-t128", "t128", false, "c18", "", 1600, 60, 4)
+			add("c18-race-t128", "t128", true, "c18", "", 5000, 120, 1)
+			add("c18-race-t2", "t2", true, "c18", "", 1500, 60, 2)
+			add("c18-value-t128", "t128", false, "c18", "", 8000, 60, 4)
 		}
 	case "C06":
 		if thorough {
-			add("c06-prior-state-t128", "t128", false, "reg", "c06", 60000, 600, 1)
-			add("c06-prior-state-t16", "t16", false, "reg", "c06", 20000, 300, 2)
-			add("c06-prior-state-t2", "t2", false, "reg", "c06", 20000, 300, 3)
-			add("c06-combined-t128", "t128", false, "reg", "both", 20000, 300, 4)
+			add("c06-prior-state-t128", "t128", false, "reg", "c06", 300000, 900, 1)
+			add("c06-prior-state-t16", "t16", false, "reg", "c06", 100000, 400, 2)
+			add("c06-prior-state-t2", "t2", false, "reg", "c06", 100000, 400, 3)
+			add("c06-combined-t128", "t128", false, "reg", "both", 200000, 600, 4)
+			add("c06-combined-t2", "t2", false, "reg", "both", 60000, 300, 5)
 		} else {
-			add("c06-prior-state-t128", "t128", false, "reg", "c06", 2400, 90, 1)
-			add("c06-prior-state-t16", "t16", false, "reg", "c06", 800, 60, 2)
+			add("c06-prior-state-t128", "t128", false, "reg", "c06", 6000, 120, 1)
+			add("c06-prior-state-t16", "t16", false, "reg", "c06", 3000, 60, 2)
+			add("c06-combined-t128", "t128", false, "reg", "both", 5000, 60, 4)
 		}
 	case "C05":
 		if thorough {
-			add("c05-alias-t128", "t128", false, "reg", "c05", 60000, 600, 1)
-			add("c05-alias-t16", "t16", false, "reg", "c05", 20000, 300, 2)
-			add("c05-alias-t2", "t2", false, "reg", "c05", 20000, 300, 3)
-			add("c05-bigint-alias", "t128", false, "big", "alias", 60000, 300, 4)
+			add("c05-alias-t128", "t128", false, "reg", "c05", 300000, 900, 1)
+			add("c05-alias-t16", "t16", false, "reg", "c05", 100000, 400, 2)
+			add("c05-alias-t2", "t2", false, "reg", "c05", 100000, 400, 3)
+			add("c05-combined-t128", "t128", false, "reg", "both", 200000, 600, 5)
+			add("c05-bigint-alias", "t128", false, "big", "alias", 600000, 600, 4)
 		} else {
-			add("c05-alias-t128", "t128", false, "reg", "c05", 2400, 90, 1)
-			add("c05-alias-t16", "t16", false, "reg", "c05", 800, 60, 2)
-			add("c05-bigint-alias", "t128", false, "big", "alias", 3000, 60, 4)
+			add("c05-alias-t128", "t128", false, "reg", "c05", 10000, 120, 1)
+			add("c05-alias-t16", "t16", false, "reg", "c05", 3000, 60, 2)
+			add("c05-combined-t128", "t128", false, "reg", "both", 4000, 60, 5)
+			add("c05-bigint-alias", "t128", false, "big", "alias", 30000, 60, 4)
 		}
 	case "C16":
 		if thorough {
-			add("c16-machine", "t128", false, "big", "", 400000, 900, 1)
-			add("c16-faults", "t128", false, "big", "faults", 100000, 300, 2)
+			add("c16-machine", "t128", false, "big", "", 3000000, 1200, 1)
+			add("c16-faults", "t128", false, "big", "faults", 600000, 400, 2)
 		} else {
-			add("c16-machine", "t128", false, "big", "", 16000, 90, 1)
-			add("c16-faults", "t128", false, "big", "faults", 4000, 60, 2)
+			add("c16-machine", "t128", false, "big", "", 80000, 120, 1)
+			add("c16-faults", "t128", false, "big", "faults", 20000, 60, 2)
 		}
 	case "C03":
 		if thorough {
-			add("c03-trap-pairs-t128", "t128", false, "trap", "", 80000, 900, 1)
-			add("c03-trap-pairs-t16", "t16", false, "trap", "", 20000, 300, 2)
-			add("c03-errdecimal-latch", "t128", false, "latch", "", 60000, 600, 3)
+			add("c03-trap-pairs-t128", "t128", false, "trap", "", 800000, 1200, 1)
+			add("c03-trap-pairs-t16", "t16", false, "trap", "", 200000, 400, 2)
+			add("c03-trap-pairs-t2", "t2", false, "trap", "", 200000, 400, 4)
+			add("c03-errdecimal-latch", "t128", false, "latch", "", 1000000, 600, 3)
 		} else {
-			add("c03-trap-pairs-t128", "t128", false, "trap", "", 2400, 90, 1)
-			add("c03-trap-pairs-t16", "t16", false, "trap", "", 600, 60, 2)
-			add("c03-errdecimal-latch", "t128", false, "latch", "", 2400, 60, 3)
+			add("c03-trap-pairs-t128", "t128", false, "trap", "", 24000, 120, 1)
+			add("c03-trap-pairs-t16", "t16", false, "trap", "", 6000, 60, 2)
+			add("c03-errdecimal-latch", "t128", false, "latch", "", 30000, 60, 3)
 		}
 	default:
 		fmt.Println("unknown property", cfg.prop)
